@@ -588,6 +588,10 @@ pub fn sum(x: &[f64]) -> f64 {
 /// Calculates the logarithm of the sum of the exponentials in a stable manner.
 /// Applies the [LogSumExp](https://en.wikipedia.org/wiki/LogSumExp) operator to the array.
 pub fn logsumexp(x: &[f64]) -> f64 {
+    if x.is_empty() {
+        // the sum over no element is 0, and there is no maximum to shift by
+        return f64::NEG_INFINITY;
+    }
     let xmax = max(x);
     x.iter().map(|v| (v - xmax).exp()).sum::<f64>().ln() + xmax
     // let xmax = x.max();
